@@ -9,9 +9,9 @@ L = "lemmas.c39."
 TARGETS = [M + n for n in (
     "add_bytes", "add_byte", "add_boolean", "add_int", "add_int64", "add_string",
     "get_bytes", "get_byte", "get_boolean", "get_int", "get_int64", "get_string", "get_binary", "get_text",
-    "get_so_far", "get_remainder", "rewind", "add_mpint", "get_mpint")] + [L + n for n in (
+    "get_so_far", "get_remainder", "rewind", "add_mpint", "get_mpint", "add_adaptive_int", "get_adaptive_int")] + [L + n for n in (
     "roundtrip_int", "roundtrip_int64", "roundtrip_boolean", "roundtrip_string", "roundtrip_binary", "roundtrip_text",
-    "roundtrip_byte", "sequence_in_order", "roundtrip_mpint")]
+    "roundtrip_byte", "sequence_in_order", "roundtrip_mpint", "roundtrip_adaptive_int")]
 REPLAY = {"add_mpint": "c39.replay_add_mpint"}
 EXTRA_AXIOMS = specs.MPINT_AXIOMS
 
@@ -31,6 +31,7 @@ def setup(E):
     E.contract(L + "roundtrip_text", params=dict(B, v="str"), requires=small + ["len(utf8enc(v)) < 2**32"], raises={})
     E.contract(L + "roundtrip_byte", params=dict(B, v="bytes"), requires=small + ["len(v) == 1"], raises={})
     E.contract(L + "roundtrip_mpint", params=dict(B, v="int"), requires=small + ["len(mpint_spec(v)) < 2**32"], raises={})
+    E.contract(L + "roundtrip_adaptive_int", params=dict(B, v="nat"), requires=small + ["len(mpint_spec(v)) < 2**32"], raises={})
     E.contract(L + "sequence_in_order", params={"a": "u32", "b": "bytes", "c": "bool", "d": "u64"},
                requires=["len(b) < 2**32"], raises={})
 
@@ -40,11 +41,11 @@ CLAIMED = True
 LEVEL_TEXT = ("Proof over all values, prefixes and suffixes: every Message writer appends exactly the specified encoding "
               "(behaviour contracts verified on the real AST), every reader returns the decoded value and advances the "
               "position, get_so_far()+get_remainder() is the whole buffer; round trips (byte, boolean, uint32, uint64, "
-              "string, binary, text, mpint, a mixed sequence in order) are lemma programs checked against the contracts "
+              "string, binary, text, mpint, adaptive int, a mixed sequence in order) are lemma programs checked against the contracts "
               "only. add_mpint emits RFC 4251's canonical form incl. zero = empty string, relative to the "
               "deflate_long/inflate_long contracts.")
 LEVEL_NOTE = ("Assumed: io.BytesIO model (write at end appends, read returns the slice), struct big-endian pack/unpack "
               "inverse, utf-8 encode/decode inverse. util.deflate_long/inflate_long are NOT proved: their contracts "
               "against the specification functions mpint_spec/tcval are assumed and backed by a bounded native check "
-              "(labelled bounded). Adaptive ints and name-lists are not covered yet.")
+              "(labelled bounded). Name-lists (join/split on commas) are not covered yet.")
 TECHNIQUE = "deductive: behaviour contracts + lemma programs over contracts, VCs from the real AST, z3/cvc5"
